@@ -35,6 +35,16 @@ CLAIMED: dict[str, tuple[str, str, str, str]] = {
             "Bounded histories (depth <=12), 4 abstract content classes, config not edited mid-history; "
             "the reference is the same code on a fresh object (relation between runs).",
             TECH),
+    "C10": ("DESIGN.md §5 C10",
+            "spec/Agreement.tla enumerates every target (each file, the directory, every explicit list of the "
+            "6 project files; exhaustive) and states the union law and API = CLI over bags; every target is "
+            "executed through all 20 linter commands and through Linter.lint on projects covering all probe "
+            "kinds, two layouts, a per-language-override config and explicit --config/config_file variants; "
+            "TLC (AgreementTrace.tla) judges every record with the spec's operators, cross-checked against the "
+            "Python pre-check. Orchestrator.tla's UnionLaw invariant is model-checked as part of C08.",
+            "6-file projects; per-file rule = all rules but dry.*/stringly-typed.*; `dry --config <file without "
+            "dry section>` excluded (overlay-vs-replace semantics undocumented).",
+            TECH),
 }
 
 REASON_NOT_YET = ("no check registered yet in this build; the TLA+ technique applies (see DESIGN.md §5) "
